@@ -285,7 +285,7 @@ def is_interface(b):
 def secack(b):
     return any(n == 3 and v > 0 for (n, v) in (b['features'] or []))
 
-def assign_tree(rng, cfg, absent_prob=0.2, unknown=1, depth3=True):
+def assign_tree(rng, cfg, absent_prob=0.2, unknown=1, depth3=True, unknown_hubs=0):
     """-> list of (addr, uid) for the simulated bus: node 0 is the interface (a configured interface board or an unknown one);
     configured boards are placed beneath interfaces up to three levels; some are absent; some unknown nodes are added."""
     boards = list(cfg['boards'])
@@ -298,6 +298,22 @@ def assign_tree(rng, cfg, absent_prob=0.2, unknown=1, depth3=True):
     placed = {root['id']} if root else set()
     parents = [(0, 0, 0)]
     used = {(0, 0, 0)}
+    # interfaces (hubs) that are on the bus but not in the configuration: the boards beneath them are configured boards present in the tree
+    for h in range(unknown_hubs):
+        p = rng.choice(parents)
+        d = 0 if p == (0, 0, 0) else 1 if p[1] == 0 else 2
+        if d >= 2:
+            continue
+        a = list(p)
+        a[d] = rng.randrange(200, 250)
+        a = tuple(a)
+        if a in used:
+            continue
+        used.add(a)
+        nodes.append((a, bytes([0x80, 0x01, 0x0D, 0xAB, 0xCD, h, 0x55])))
+        parents.append(a)
+        if rng.random() < 0.7:
+            parents.append(a)         # weight: boards should really end up beneath it
     for b in boards:
         if b['id'] in placed:
             continue
